@@ -76,7 +76,7 @@ pub fn import_signing_key(keypair: &[u8]) -> Result<impl SigningKey, Error> {
 /// import a existing verifying key, using the first byte flag to detect the signature scheme
 ///
 pub fn import_verifying_key(veriying_key: &[u8]) -> Result<Box<dyn VerifyingKey>, Error> {
-    if veriying_key[0] != KEY_TYPE_ED_2519 {
+    if veriying_key.is_empty() || veriying_key[0] != KEY_TYPE_ED_2519 {
         return Err(Error::InvalidKeyType(KEY_TYPE_ED_2519));
     }
     if veriying_key.len() != 33 {
